@@ -99,7 +99,7 @@ def enable_decoy_cwd(workdir: str) -> str:
     os.makedirs(decoy, exist_ok=True)
     os.chdir(decoy)
     garbage = bytes([0xDE, 0xC0, 0x1E, 0x00]) * 64
-    made: set = set()
+    last: dict = {}  # file name -> path of the file that was written under this name last time
 
     def hook(event, args):
         if event != "open" or len(args) < 2 or not isinstance(args[0], str) or not isinstance(args[1], str):
@@ -110,15 +110,26 @@ def enable_decoy_cwd(workdir: str) -> str:
         if not ap.startswith(workdir + os.sep) or ap.startswith(decoy + os.sep):
             return
         name = os.path.basename(ap)
-        if name in made:
-            return
-        made.add(name)
+        # the decoy gets what the file of this name held the last time one was written (an earlier case's well-formed input
+        # of the same kind; the hook runs before the open truncates it) - meaningless bytes the first time
+        content = garbage
+        prev = last.get(name)
+        if prev:
+            try:
+                fd = os.open(prev, os.O_RDONLY)
+                try:
+                    content = os.read(fd, 1 << 24) or garbage
+                finally:
+                    os.close(fd)
+            except OSError:
+                content = garbage
+        last[name] = ap
         try:
-            fd = os.open(os.path.join(decoy, name), os.O_WRONLY | os.O_CREAT | os.O_EXCL, 0o644)
+            fd = os.open(os.path.join(decoy, name), os.O_WRONLY | os.O_CREAT | os.O_TRUNC, 0o644)
         except OSError:
             return
         try:
-            os.write(fd, garbage)
+            os.write(fd, content)
         finally:
             os.close(fd)
 
